@@ -213,7 +213,9 @@ func C06(c *Ctx) {
 	prefixFns := map[*ssa.Function]bool{}
 	for _, s := range c.Calls(func(n string) bool { return n == "strings.HasPrefix" }) {
 		for _, a := range s.Args() {
-			if c.O.Of(a).Contains(func(t *core.Term) bool { return t.IsField("option.IdentMatcher.pattern") || t.IsField("option.IdentMatcher.paths") }) {
+			if c.O.Of(a).Contains(func(t *core.Term) bool {
+				return t.IsField("option.IdentMatcher.pattern") || t.IsField("option.IdentMatcher.paths")
+			}) {
 				prefixFns[s.Fn] = true
 			}
 		}
